@@ -107,11 +107,17 @@ def _frame(kind, ch: Optional[Choices], uniq, via):
                                   "tags": ["t%d" % n][: d("fr.tags", 2)]}}
         else:
             data = {"v": n, "s": ["x", None, [1, 2], {"k": False}][d("fr.shape", 4)]}
+            if ch is not None and d("fr.falsy_data", 12) == 11:
+                # execute_ws itself (no generated model in the way): a result whose data is falsy
+                return {"k": "next", "data": [None, {}, [], 0, "", False][d("fr.falsy_which", 6)], "optional": True,
+                        "ext": bool(d("fr.ext", 2))}
         return {"k": "next", "data": data, "ext": bool(d("fr.ext", 2))}
     if kind == "error":
         n = d("fr.nerr", 4) or 1
         if ch is not None and d("fr.noerr", 8) == 7:
             n = 0
+        if ch is not None and d("fr.errshape", 8) == 7:
+            return {"k": "error", "errors": [], "shape": ["absent", "empty_obj"][d("fr.errshape_which", 2)]}
         errs = []
         for i in range(n):
             e = {"message": "boom-%d-%d" % (next(uniq), i)}
@@ -235,6 +241,9 @@ def draw_config(case, ch: Choices):
     cfg["lat_mode"] = ch.draw("cfg.lat", 3)
     cfg["coalesce"] = ch.chance("cfg.coalesce", 1, 3)
     cfg["compression"] = ch.chance("cfg.deflate", 2, 3)
+    # the public configuration attributes of one client object are changed between two subscriptions (token rotation):
+    # the subscriptions then run one after another and each must use what is configured when it opens
+    cfg["sequential_reconfig"] = nsubs >= 2 and ch.chance("cfg.seqreconf", 1, 3)
     subs = []
     for i in range(nsubs):
         s: Dict[str, Any] = {}
@@ -247,6 +256,23 @@ def draw_config(case, ch: Choices):
         else:
             s["script"] = drawn_script(ch, s["via"], probe)
         subs.append(s)
+    eff = {"init_payload": cfg["init_payload"], "ws_headers": cfg["ws_headers"], "origin": cfg["origin"]}
+    for i, s in enumerate(subs):
+        if cfg["sequential_reconfig"] and i > 0:
+            rc: Dict[str, Any] = {}
+            if ch.chance("rc.payload", 2, 3):
+                rc["init_payload"] = ch.pick("rc.initp", [None, {"token": "rotated-%d" % i}, {}, {"token": "abc", "extra": i}])
+                rc["payload_in_place"] = ch.chance("rc.inplace", 1, 2)
+            if ch.chance("rc.headers", 1, 3):
+                rc["ws_headers"] = ch.pick("rc.wsh", [None, {"X-Client": "c2"}, {"Authorization": "Bearer rotated-%d" % i}])
+            if ch.chance("rc.origin", 1, 4):
+                rc["origin"] = ch.pick("rc.origin_v", [None, "http://other.test"])
+            s["reconf"] = rc
+            eff = dict(eff)
+            for k_ in ("init_payload", "ws_headers", "origin"):
+                if k_ in rc:
+                    eff[k_] = rc[k_]
+        s["eff"] = dict(eff)
     cfg["subs"] = subs
     return cfg
 
@@ -452,8 +478,9 @@ def simulate(case, ch: Choices, variant_override=None):
                     return f["id"]
             return "x"
 
-        kwargs = dict(ws_url=WS_URL, ws_headers=cfg["ws_headers"], ws_origin=cfg["origin"],
-                      ws_connection_init_payload=cfg["init_payload"])
+        _copy = lambda o: json.loads(json.dumps(o))     # the client gets its own objects (they may be changed in place later)
+        kwargs = dict(ws_url=WS_URL, ws_headers=_copy(cfg["ws_headers"]), ws_origin=cfg["origin"],
+                      ws_connection_init_payload=_copy(cfg["init_payload"]))
         tracer = None
         if variant == "otel_proxy":
             kwargs["tracer"] = "sim-tracer"
@@ -466,7 +493,29 @@ def simulate(case, ch: Choices, variant_override=None):
         base_cls = getattr(base_mod, "AsyncBaseClient", None) or getattr(base_mod, "AsyncBaseClientOpenTelemetry")
         shared = client or base_cls(**kwargs)
 
+        done_events = [asyncio.Event() for _ in cfg["subs"]]
+
         async def consume(sub, rec):
+            try:
+                await _consume(sub, rec)
+            finally:
+                done_events[sub["index"]].set()
+
+        async def _consume(sub, rec):
+            if cfg.get("sequential_reconfig") and sub["index"] > 0:
+                await done_events[sub["index"] - 1].wait()
+                rc = sub.get("reconf") or {}
+                if "init_payload" in rc:
+                    cur = shared.ws_connection_init_payload
+                    if rc.get("payload_in_place") and isinstance(cur, dict) and isinstance(rc["init_payload"], dict):
+                        cur.clear()
+                        cur.update(json.loads(json.dumps(rc["init_payload"])))
+                    else:
+                        shared.ws_connection_init_payload = json.loads(json.dumps(rc["init_payload"]))
+                if "ws_headers" in rc:
+                    shared.ws_headers = dict(rc["ws_headers"]) if rc["ws_headers"] is not None else {}
+                if "origin" in rc:
+                    shared.ws_origin = rc["origin"]
             await asyncio.sleep(sub["start_delay"])
             it, opname, variables, root = make_call(mods, variant, sub, shared)   # harness code
             rec.call = (opname, variables, root)
@@ -609,14 +658,19 @@ def judge(cfg, recs, info, res: RunResult, variant):
         offered = [x.strip() for x in (hdrs.get("sec-websocket-protocol") or "").split(",") if x.strip()]
         if offered != ["graphql-transport-ws"]:
             V("handshake-subprotocol", "%s: offered subprotocols %r" % (tag, offered))
+        eff = sub.get("eff") or {"init_payload": cfg["init_payload"], "ws_headers": cfg["ws_headers"], "origin": cfg["origin"]}
         want_h = {}
-        want_h.update(cfg["ws_headers"] or {})
+        want_h.update(eff["ws_headers"] or {})
         want_h.update(sub["call_headers"] or {})
         for k, v in want_h.items():
             if hdrs.get(k.lower()) != v:
                 V("handshake-headers", "%s: header %s sent as %r, configured %r" % (tag, k, hdrs.get(k.lower()), v), header=k)
-        if (hdrs.get("origin") or None) != cfg["origin"]:
-            V("handshake-origin", "%s: Origin %r, configured %r" % (tag, hdrs.get("origin"), cfg["origin"]))
+        if (hdrs.get("origin") or None) != eff["origin"]:
+            V("handshake-origin", "%s: Origin %r, configured %r" % (tag, hdrs.get("origin"), eff["origin"]))
+        if sub.get("reconf") and "ws_headers" in sub["reconf"]:
+            for k in (cfg["ws_headers"] or {}):
+                if k not in want_h and hdrs.get(k.lower()) is not None:
+                    V("handshake-headers", "%s: header %s is sent as %r although ws_headers no longer has it" % (tag, k, hdrs.get(k.lower())), header=k)
         # ---- client frames
         cf_ = r.client_frames
         types = [f.get("type") if isinstance(f, dict) else None for _, f in cf_]
@@ -628,7 +682,7 @@ def judge(cfg, recs, info, res: RunResult, variant):
             if types[0] != "connection_init":
                 V("init-not-first", "%s: first client frame is %r" % (tag, first))
             else:
-                ip = cfg["init_payload"]
+                ip = eff["init_payload"]
                 if ip:
                     if first.get("payload") != ip:
                         V("init-payload", "%s: connection_init payload %r, configured %r" % (tag, first.get("payload"), ip))
@@ -697,23 +751,27 @@ def judge(cfg, recs, info, res: RunResult, variant):
         # ---- yields
         ys = [y for _, y in r.yields]
         exp_ys = exp["yields"]
+        OY = ws_model.OptionalYield
         if sub["via"] != "base":
             root_model = {"gen_counter": "Counter", "gen_item_added": "ItemAdded", "gen_searching": "Searching"}[sub["via"]]
             pkg = mods["fx_async"] if variant == "plain" else mods["fx_async_otel"]
             M = getattr(pkg, root_model)
-            exp_objs = [M.model_validate(d) for d in exp_ys]
+            exp_objs = [d if isinstance(d, OY) else M.model_validate(d) for d in exp_ys]
         else:
             exp_objs = exp_ys
+        plain_objs = [x for x in exp_objs if not isinstance(x, OY)]
+        if any(isinstance(x, OY) for x in exp_objs):
+            res.bump("probe.falsy_next_data_in_asserted_stream")
         if exact:
-            if ys != exp_objs:
+            if not ws_model.match_yields(ys, exp_objs):
                 cls = "yield-mismatch"
-                if len(ys) > len(exp_objs) and ys[:len(exp_objs)] == exp_objs:
-                    cls = "yield-after-terminal" if tkind in ("complete", "error", "invalid") else "yield-extra"
-                elif len(ys) < len(exp_objs) and exp_objs[:len(ys)] == ys:
+                if len(ys) > len(plain_objs) and ys[:len(plain_objs)] == plain_objs:
+                    cls = "yield-after-terminal" if tkind in ("complete", "error", "invalid", "error_or_invalid") else "yield-extra"
+                elif ws_model.match_yields(ys, exp_objs, prefix=True):
                     cls = "yield-lost"
                 V(cls, "%s: yielded %r, expected %r (terminal %s)" % (tag, _short(ys), _short(exp_objs), tkind), terminal=tkind)
         else:
-            if ys != exp_objs[:len(ys)]:
+            if not ws_model.match_yields(ys, exp_objs, prefix=True):
                 V("yield-not-prefix", "%s: yielded %r is not a prefix of %r" % (tag, _short(ys), _short(exp_objs)))
         # ---- terminal outcome
         if disturbed and term[0] == "exc" and term[1] in ALLOWED_TRANSPORT_EXC:
@@ -736,6 +794,11 @@ def judge(cfg, recs, info, res: RunResult, variant):
                         if (g["message"], g["locations"], g["path"], g["extensions"]) != (
                                 w["message"], w.get("locations"), w.get("path"), w.get("extensions")) or g["original"] != w:
                             V("error-content", "%s: error %r != sent %r" % (tag, g, w))
+        elif tkind == "error_or_invalid":
+            res.bump("probe.error_frame_without_payload")
+            if term[0] != "exc" or term[1] not in ("GraphQLClientGraphQLMultiError", "GraphQLClientInvalidMessageFormat"):
+                V("error-not-raised", "%s: after an error frame without a payload (%s) outcome is %r" % (tag, exp["terminal"][1], term[:3]),
+                  exc=term[1], shape=exp["terminal"][1])
         elif tkind == "invalid":
             if term[0] != "exc" or term[1] != "GraphQLClientInvalidMessageFormat":
                 V("invalid-not-raised", "%s: after %s outcome is %r" % (tag, exp["terminal"][1], term[:3]),
@@ -744,7 +807,7 @@ def judge(cfg, recs, info, res: RunResult, variant):
             if term[0] == "exc" and not (term[1] in ALLOWED_TRANSPORT_EXC):
                 V("transport-exc-family", "%s: server ended with %s and the iterator raised %s %s" % (tag, how, term[1], term[2]), exc=term[1])
         # ---- socket closed after a protocol terminal
-        if tkind in ("complete", "error", "invalid") and how == "linger" and r.server_saw_close is False:
+        if tkind in ("complete", "error", "invalid", "error_or_invalid") and how == "linger" and r.server_saw_close is False:
             V("socket-not-closed", "%s: %ss after the terminal %s frame the client had not closed the socket" % (tag, LIVENESS_BUDGET, tkind))
 
 
